@@ -37,8 +37,10 @@ PROVED = {
  "C09": ("Theorems: deprecated unknown-size call = option-based call (definitional in the fixed code); a Full item is buffered as its Start (same "
          "options), its children, its End; an element write appends exactly id ++ size field ++ payload where the payload depends on the value only "
          "and an explicit width w gives a size field of exactly w bytes; write_all delivers exactly the data for every write script without a hard "
-         "error. NOT proved: byte equality between one Full call and separate Start/child/End calls when an unknown-size master makes the separate "
-         "calls flush in between (offsets shift) — covered by the correspondence groups (Full vs Start/End mixes, options vs defaults, write scripts).", ""),
+         "error. Whole documents (Proofs/WriteEnc.v, WriteFull.v): a conforming document written tag by tag (any widths, unknown size by option) and the same "
+         "document with every master given as one Full item both yield exactly the structural encoding enc_forest: byte-identical output for the two "
+         "presentations although the separate calls flush in between (C09_full_equals_separate); options show up only in the size fields they govern. "
+         "Mixed presentations, global-placeholder paths and destination write scripts are covered by the correspondence groups.", ""),
  "C19": ("Theorem C19_atomic: for every specification, state, tag tree (any nesting of Full) and options, a write that returns a non-I/O error "
          "leaves the complete writer state (open masters, working buffer, delivered bytes, destination script) exactly as it was; corollaries for the "
          "deprecated call, for write_raw (no non-I/O failure exists) and for the rest of the run (C19_erase). The proof exposed defect D21 (fixed). "
@@ -121,15 +123,14 @@ PROVED = {
          "is skipped whatever ids it contains (same-id nesting). That buffer_master feeds roll_up exactly the items of the flat parse (the simulation "
          "between buffered and unbuffered runs) is covered by correspondence groups with and without buffered sets; EOF inside a buffered master with "
          "emit_master_end_when_eof(false) is known finding D18.", ""),
- "C12": ("Theorem C12_truncated_run_partial (Proofs/Partial.v): for every strict configuration and every truncated document — given by the chain of "
-         "masters open at the cut (any depth; each with the complete trees before it and its declared size, which may exceed what is there; known or "
-         "unknown size), the complete trees at the innermost level and a tail that is empty or the first k bytes of one more tag — the reader yields "
-         "exactly the items of everything complete, then on a tag boundary the Ends of all open masters and None, and inside a tag the Ends of the "
-         "known-size masters complete at that point followed by UnexpectedEof with the incomplete tag's start offset, the id iff the id bytes are "
-         "complete, the size iff the header is complete and exactly the available payload bytes; never a corruption error; for every capacity and "
-         "chunking (C04_refines). The local statement C12_truncated_tag holds at any reader state. PARTIAL: placeholder-free declared paths; that "
-         "every prefix of a valid document is such a truncated document is not proved in Coq — the correspondence run cuts generated documents at "
-         "every byte position (exhaustively per document) and compares with an independently computed expectation.", ""),
+ "C12": ("Theorems (Proofs/Partial.v, CutExists.v): C12_every_cut_partial — for every strict configuration, every conforming document and EVERY cut "
+         "position k, reading the first k bytes yields out_tdoc (cut_doc f k): the items of everything complete (a master's Start once its header is "
+         "complete), then on a tag boundary the Ends of all open masters and None, and inside a tag the Ends of the known-size masters complete at that "
+         "point followed by UnexpectedEof with the incomplete tag's start offset, the id iff the id bytes are complete, the size iff the header is "
+         "complete and exactly the available payload bytes; never a corruption error; for every capacity and chunking (C04_refines). cut_doc is an "
+         "executable function proved to produce a conforming truncated document whose encoding is exactly the prefix (C12_cut_doc_correct); the "
+         "truncated-document theorem holds for any declared sizes and at any reader state (C12_truncated_tag). PARTIAL only in that declared paths have "
+         "no global placeholders; the correspondence run cuts generated documents (with global elements) at every byte position.", ""),
  "C14": ("Theorems (Proofs/Recover.v): C14_damaged_run_partial — for every strict configuration and every document with a run of junk inserted "
          "between two tags at any nesting depth (masters of known or unknown size), if the following tag still fits inside every enclosing known-size "
          "master after the shift and no header check passes at any junk position, then next() yields the tags before the junk unchanged, exactly one "
